@@ -660,8 +660,36 @@ func (x *ckExec) net(op ckOp) {
 		left = br.Len()
 	}
 	proj := ckEmptyProj()
+	rewire := false
+	rewireDiff := ""
 	if werr == nil && rerr == nil {
 		proj = x.project(d)
+		// the chunk read into d (possibly used before), written again, against the same bytes read into a fresh chunk and
+		// written again: nothing of d's past may show, not even in arrays no Get reaches
+		var again, ref bytes.Buffer
+		if p, _ := catch(func() {
+			fresh := level.EmptyChunk(x.secs)
+			if _, err := fresh.ReadFrom(bytes.NewReader(wb)); err == nil {
+				fresh.WriteTo(&ref)
+			}
+			d.WriteTo(&again)
+		}); !p {
+			rewire = bytes.Equal(again.Bytes(), ref.Bytes())
+			if !rewire {
+				a, b := ref.Bytes(), again.Bytes()
+				i := 0
+				for i < len(a) && i < len(b) && a[i] == b[i] {
+					i++
+				}
+				hi := func(x []byte) []byte {
+					if i+24 < len(x) {
+						return x[i : i+24]
+					}
+					return x[i:]
+				}
+				rewireDiff = fmt.Sprintf("lengths %d / %d, first difference at %d: fresh destination % x | this destination % x", len(a), len(b), i, hi(a), hi(b))
+			}
+		}
 	}
 	lit := false
 	for _, s := range x.c.Sections {
@@ -669,7 +697,7 @@ func (x *ckExec) net(op ckOp) {
 			lit = true
 		}
 	}
-	x.ev(map[string]any{"k": "net", "werr": werr != nil, "wn": int(wn), "nbytes": len(wb), "rerr": rerr != nil, "rn": int(rn), "left": left, "tail": op.Tail, "d": proj,
+	x.ev(map[string]any{"k": "net", "werr": werr != nil, "wn": int(wn), "nbytes": len(wb), "rerr": rerr != nil, "rn": int(rn), "left": left, "tail": op.Tail, "d": proj, "rewire": rewire, "rewirediff": rewireDiff,
 		"cls": fmt.Sprint("light=", lit, "/ents=", len(x.c.BlockEntity) > 0), "why": ckWhy(werr, rerr)})
 }
 
